@@ -2,9 +2,17 @@
 
 S1  Coq: Props/C16.v (per_table_independent, no_shared_page, savepoint_tracking_consistent,
     savepoint_registration_serialized over every executable log of Conc/Shared.v)
+S1b Conc/CommitGap.v + CommitGapP.v: c16_epilogue_horizon_safe (every schedule of one committer against any number of
+    Savepoint droppers / readers keeps DATA_ALLOCATED within the allocated pages and frees nothing a live read or valid
+    savepoint can reach), the two seeded variants refuted inside the model, c16_lock_order_acyclic
 S2  every forced schedule is replayed by the extracted model: the model must accept each step (tables mutex free
     exactly when verif_tables_locked() says so), give the same call results (savepoint accepted / refused as dirty),
     the same tracking state and dirty flag (H3 snapshot) and the same per-table contents
+S2b every commit-gap schedule (kinds cgap-*, cgapr-*, cgaps-*, hist-*-g*) is replayed grant by grant on the extracted
+    CommitGap model started from the implementation's state (H3: tracker, DATA_FREED, DATA_ALLOCATED, allocator): the
+    state must satisfy the theorem's precondition (wf_init_b), the model must stop at the same pause point after every
+    grant, and end with the same published id, tracker (pins, savepoints, pending non-durable commits), DATA_FREED keys
+    and DATA_ALLOCATED keys as the implementation right after the commit
 S3  oracle on the implementation: per-table contents = own stream (normal + multimap), no page in two tables,
     tracking never off while a savepoint is valid, every savepoint restorable to what it captured, page
     accounting (allocated = reachable + pending-free; DATA_ALLOCATED names allocated pages only), check_integrity
@@ -45,9 +53,48 @@ def collect(ctx, tag):
                        "history_before_the_shared_transaction": hist.get(sid, "")[:20000],
                        "history_format": "id|where the older savepoint (handle 900) is taken, after how many earlier transactions read transactions are begun (they stay live until after the shared transaction ended), after how many grants of the durable commit a Savepoint is dropped on another thread, (thread, grants) of a thread that is stopped until the others finished|earlier transactions: D durable / N non-durable : table.key=value (put) table.key- (delete)",
                        "format": "id|kind|pre-existing savepoint|end (0 durable, 1 non-durable, 2 abort)|programs per thread (O open, P put, D delete, C close, S savepoint, R drop savepoint; table ids >= 100 are multimap; savepoint handles 500..899 are persistent_savepoint() calls)|executed log tid:label:tables-mutex-held. "
-                                 "kind cgapr-sp<i>-r<js>-g<g> / hist-*: earlier whole transactions (regenerated from the seed), older savepoint taken before the i-th, read transactions begun after the js-th held live, a Savepoint dropped after g grants of the durable commit; psp-park-n<n>-a<a>-k<k>: thread a stopped after k grants until the others finished",
+                                 "kind cgapr-sp<i>-r<js>-g<g> / hist-*: earlier whole transactions (regenerated from the seed), older savepoint taken before the i-th, read transactions begun after the js-th held live, a Savepoint dropped after g grants of the durable commit; cgaps-...-g<g>-d<d>-k<k>: the same, but the dropping thread gets d grants (entering Savepoint::drop included: 2 = stopped between its two tracker sections), then the committer k more, then the drop finishes; psp-park-n<n>-a<a>-k<k>: thread a stopped after k grants until the others finished",
                        "how_to_replay": "harness bin c16: VERIF_SEED=%d c16 %s" % (ctx.seed, sid)})
     return cases
+
+
+def commit_gap_correspondence(ctx):
+    """cg_cases.txt -> extracted CommitGap model (one line per variant of the unobservable own records) vs cg_impl.txt"""
+    cases = {l.split("|")[0]: l for l in lines(ctx, "cg_cases.txt")}
+    impl = {l.split("|", 1)[0]: l.split("|", 1)[1] for l in lines(ctx, "cg_impl.txt")}
+    if not cases:
+        return False, "the harness produced no commit-gap scenario", {}
+    rc, err = ctx.driver(BIN, "cg_cases.txt", "cg_model.txt", args=["cg"])
+    if rc != 0:
+        return False, "model driver (cg) failed rc=%s: %s" % (rc, err), {}
+    variants = {}
+    for l in lines(ctx, "cg_model.txt"):
+        f = l.split("|", 2)
+        if len(f) == 3:
+            variants.setdefault(f[0], []).append((f[1], f[2]))
+    diffs, kinds, split = [], {}, 0
+    for sid, a in impl.items():
+        vs = variants.get(sid, [])
+        kind = cases[sid].split("|")[1] if sid in cases else "?"
+        if any(r.split("|#")[0] == a for _, r in vs):
+            k = kind.split("-")[0]
+            kinds[k] = kinds.get(k, 0) + 1
+            g = cases[sid].rsplit("grants=", 1)[-1].split(" ")
+            # the dropper was granted, then the committer, then the dropper again: a section of the commit ran inside Savepoint::drop
+            t = [x.split(">")[0] for x in g]
+            first1 = t.index("1") if "1" in t else None
+            if first1 is not None:
+                last1 = len(t) - 1 - t[::-1].index("1")
+                if "0" in t[first1:last1]:
+                    split += 1
+        else:
+            diffs.append({"scenario": sid, "kind": kind, "impl": a[:400], "model_variants": [(t, r[:400]) for t, r in vs],
+                          "case": cases.get(sid, "")[:1500], "how_to_replay": "harness bin c16: VERIF_SEED=%d c16 %s" % (ctx.seed, sid)})
+    cov = {"commit_gap_schedules_replayed_on_model": len(impl), "commit_gap_schedules_agreeing": len(impl) - len(diffs),
+           "commit_gap_kinds": kinds, "commit_gap_schedules_with_commit_sections_inside_the_drop": split}
+    if diffs:
+        return False, {"n_differing_scenarios": len(diffs), "first": diffs[:3]}, cov
+    return True, None, cov
 
 
 def run(ctx):
@@ -94,6 +141,12 @@ def run(ctx):
             if diffs:
                 s2_ok = False
                 detail = {"n_differing_scenarios": len(diffs), "first": diffs[:3]}
+        # ---- S2b: the commit-gap schedules on the CommitGap model
+        ok_cg, cg_detail, cg_cov = commit_gap_correspondence(ctx)
+        cov.update(cg_cov)
+        if not ok_cg:
+            s2_ok = False
+            detail = {"table_phase": detail, "commit_gap": cg_detail} if detail else {"commit_gap": cg_detail}
     cov["rule"] = ("forced schedules over the pause points of open_table's set_dirty and of ephemeral_savepoint / Savepoint::drop: "
                    "directed windows (savepoint thread stopped after k grants while another thread opens its first table, and the "
                    "reverse; with and without an older valid savepoint; ended by durable commit, non-durable commit, abort), a "
@@ -103,11 +156,16 @@ def run(ctx):
                    "re-read), random histories of durable and non-durable transactions with readers and savepoints, 3-4 threads calling "
                    "persistent_savepoint() with one of them stopped at every pause point until the others finished (ids distinct, listed, fresh "
                    "after a reopen, each restorable) and random schedules of 2-4 threads on distinct normal and "
-                   "multimap tables. distinct_nontrivial = distinct executed logs in which another thread was granted inside a call")
+                   "multimap tables. distinct_nontrivial = distinct executed logs in which another thread was granted inside a call. "
+                   "Commit-gap kinds additionally: the dropping thread stopped between the two tracker sections of Savepoint::drop (and after "
+                   "its second pause point) while the committer runs 1-6 more sections (cgaps-*); every commit-gap schedule is replayed on the "
+                   "extracted CommitGap model from the implementation's H3 state")
     cov["trusted_base"] = ["Coq 8.16.1 kernel + vm_compute", "idealisation: mutex sections atomic, SC; a table operation is one step",
                            "harness/src/conc.rs + harness/src/bin/c16.rs", "H3/H4 hooks (verif_snapshot, verif_reach, verif_tables_locked, pause points)",
-                           "extraction (ExtrOcamlBasic) + ocaml/c16_driver.ml"]
+                           "extraction (ExtrOcamlBasic) + ocaml/c16_driver.ml",
+                           "CommitGap.lock_chains: the lock-acquisition chains of the modelled sections, transcribed by hand from the code",
+                           "CommitGap model: the committer's own DATA_FREED / DATA_ALLOCATED records are not observable before the commit (one model run per possibility)"]
     return ctx.finish("proof", cov,
                       assumptions=["interleavings inside a table operation (allocator shards, freed-page lists, striped write buffer) are not forced: no pause point there",
-                                   "commit/abort of the shared transaction: C03's model"],
+                                   "commit of the shared transaction against Savepoint::drop / readers: Conc/CommitGap.v (SYSTEM_FREED, system-page allocation by the commit, staged persistent-savepoint deletions outside); abort and the non-durable commit: C03's model"],
                       s2_ok=s2_ok, s2_detail=detail, searched=searched)
